@@ -35,6 +35,8 @@ CHECKS['C04'] = (T % ('lattice structures with <=2 (thorough 3) wires in both or
          'Every observation point of every structure in the bound is requested from the real compute_near_field and compared at the stated 1 %.', 'points closer than max(1 segment, 0.01 lambda) not enumerated (fixed 0.001 lambda finite difference: 2.8 % at lambda/480 segments, DESIGN 3/C04)', '3/C04')
 CHECKS['C08'] = (T % ('the full product of 13 frequencies x 5 R x 8 L x 14 C for series-RLC and trap loads, 40 Laplace coefficient vectors, skin-effect and insulation parameter grids, distributed loads on interior/junction/grounded pulses of two-wire structures (1-segment wires, both wire orders, different radii), and in solved lattice structures every pulse as loaded feed x 5 load sets x 2 attachment forms plus neutral loads and the four all-attachment forms', 'exact rational circuit arithmetic, the Kelvin-function skin-effect form, the closed-form insulation inductance times the conductor length of the pulse, and Z_in(with) - Z_in(without) = sum Z_L'),
          'Every parameter combination of the menus is evaluated on the real load classes / solver.', 'scipy Kelvin functions; documented |kr|=110 asymptote', '3/C08')
+CHECKS['C11'] = (T % ('in-domain ground structures (sources on interior and grounded pulses, loads on grounded pulses) x 28 single-medium constant pairs, 2/3/4-media linear and circular layouts with boundaries below/between/beyond the reflection points, radials 8/120, all splits of a medium into 2..3 equal-constant pieces and appended media beyond every reflection point', 'the ideal-ground solution (currents/impedances identical), the conductivity sequence towards the ideal pattern, and the unsplit / unappended pattern'),
+         'Every media configuration of the menu is solved for every structure in the bound.', 'reflection points computed by the harness from pulse heights and the direction grid (specular reflection)', '3/C11')
 NA = {}
 def main():
     src = subprocess.run(['git', '-C', '/repo', 'log', '--format=%H %s'], capture_output=True, text=True).stdout
